@@ -12,6 +12,7 @@ Two kinds of per-run evidence:
     dyadic values (C19/Exec.v) through the generic differential loop.
 """
 import math
+import os
 
 import numpy as np
 
@@ -107,7 +108,7 @@ def cap_cases(ctx, scale=1):
             ra, dec = _sphere_point(r)
             cap(ra, dec, _radius(r), r.random() < 0.3, [u], [p], "cap/edge-deviates")
     # seeded random: stub and real generators, both branches
-    for _ in range(int(ctx.n(28, 420) * scale)):
+    for _ in range(int(ctx.n(14, 420) * scale)):
         ra, dec = _sphere_point(r)
         n = r.choice([1, 2, 3])
         c = {"kind": "cap", "ra": ra, "dec": dec, "rad": _radius(r), "dorot": r.random() < 0.4,
@@ -142,7 +143,7 @@ def box_cases(ctx, scale=1):
         box([0.0, 360.0], [d0, d1], [r.random(), r.random()], [r.random(), r.choice([0.0, 1.0 - 2.0 ** -53])], "box/polar")
     box([359.9999, 360.0], [-1.0, 1.0], [r.random()], [r.random()], "box/seam")
     box([0.0, 1e-9], [-1e-9, 1e-9], [r.random()], [r.random()], "box/seam")
-    for _ in range(int(ctx.n(16, 240) * scale)):
+    for _ in range(int(ctx.n(10, 240) * scale)):
         a0, a1 = sorted((r.random() * 360, r.random() * 360))
         d0, d1 = sorted((r.uniform(-90, 90), r.uniform(-90, 90)))
         n = r.choice([1, 2])
@@ -189,6 +190,8 @@ VEC = ("cbv beta iota zeta delta [cap_vec cap_vec_rot dot eq2xyz thetaphi2xyz un
        "interval with (i_prec 110)")
 RADC = "unfold slack; interval with (i_prec 80)"
 UNIT = "unfold unit_dev; lra"
+SKY = "unfold on_sky; cbn [fst snd]; lra"
+NOSKY = "unfold on_sky in Hsky; cbn [fst snd] in Hsky; lra"
 
 
 def _is_polar(c):
@@ -200,21 +203,23 @@ def cap_lemmas(c, i, pt):
     u, up = c["dev"][0][i], c["dev"][1][i]
     ra2, dec2, r = pt
     outt = "(%s, %s, %s)" % (cR(ra2), cR(dec2), cR(r))
-    st1 = "cap_point_fl %s %s %s %s" % (cR(ra), cR(dec), cR(rad), outt)
+    st1 = "cap_point_fl %s %s %s %s /\\ on_sky (%s, %s)" % (cR(ra), cR(dec), cR(rad), outt, cR(ra2), cR(dec2))
     alt = "first [left; %s | right; split; [%s | %s]]" % (LRA_S, LRA_S, HAV)
-    pr1 = "apply cap_point_fl_intro; [lra | first [left; %s | right; %s] | %s | %s]." % (LRA_S, HAV, alt, alt)
+    pr1 = ("split; [apply cap_point_fl_intro; [lra | first [left; %s | right; %s] | %s | %s] | %s]."
+           % (LRA_S, HAV, alt, alt, SKY))
     st2 = "cap_close (randcap_R %s %s %s %s %s %s) %s" % (cb(c["dorot"]), cR(ra), cR(dec), cR(rad), cR(u), cR(up), outt)
     if _is_polar(c):
         side = "left; reflexivity" if c["dorot"] else "right; unfold pole_thr; lra"
         pr2 = "apply cap_close_rot_intro'; [%s | %s | %s]." % (side, VEC, RADC)
     else:
         pr2 = "apply cap_close_unrot_intro; [unfold pole_thr; lra | %s | %s]." % (VEC, RADC)
-    # negation of the property certificate (only compiled when the certificate failed)
+    # negation of the property certificate (only compiled when the certificate failed / is predicted to fail)
     h2 = "unfold hav, d2r, slack, Rsqr; interval with (i_prec 110)"
     br = "split; [unfold slack; lra | %s]" % h2
-    neg = ("~ " + "(" + st1 + ")",
-           "apply cap_point_fl_refute; first [ left; %s | right; left; %s | right; right; left; %s "
-           "| right; right; right; left; unfold slack; lra | right; right; right; right; unfold slack; lra ]." % (br, br, br))
+    neg = ("~ (" + st1 + ")",
+           "intros [Hcap Hsky]; first [ %s | revert Hcap; apply cap_point_fl_refute; first [ left; %s | right; left; %s "
+           "| right; right; left; %s | right; right; right; left; unfold slack; lra "
+           "| right; right; right; right; unfold slack; lra ] ]." % (NOSKY, br, br, br))
     return (st1, pr1), (st2, pr2), neg
 
 
@@ -237,18 +242,96 @@ def box_lemmas(c, i, pt):
         # the property on an xyz output: unit vector whose z = sin(dec) lies in the box
         return None, (st2, pr2), None
     ra, dec = pt
-    st1 = "box_point_fl %s (%s, %s)" % (bx, cR(ra), cR(dec))
+    st1 = "box_point_fl %s (%s, %s) /\\ on_sky (%s, %s)" % (bx, cR(ra), cR(dec), cR(ra), cR(dec))
     sv = "unfold d2r, sinslack; interval with (i_prec 80)"
-    pr1 = ("apply box_point_fl_intro; [unfold slack; lra | first [left; %s | right; %s] | first [left; %s | right; %s]]."
-           % (LRA_S, sv, LRA_S, sv))
+    pr1 = ("split; [apply box_point_fl_intro; [unfold slack; lra | first [left; %s | right; %s] "
+           "| first [left; %s | right; %s]] | %s]." % (LRA_S, sv, LRA_S, sv, SKY))
     st2 = "sphere_close (randsphere_R %s %s %s) (%s, %s)" % (bx, cR(u1), cR(u2), cR(ra), cR(dec))
     pr2 = ("apply sphere_close_intro; [%s | %s | unfold uniform, slack; interval with (i_prec 80) "
            "| unfold uniform, d2r, sinslack; interval with (i_prec 80)]." % (vb, UNIT))
     both = "split; [unfold slack; lra | %s]" % sv
     neg = ("~ (" + st1 + ")",
-           "apply box_point_fl_refute; first [ left; unfold slack; lra | right; left; unfold slack; lra "
-           "| right; right; left; %s | right; right; right; %s ]." % (both, both))
+           "intros [Hbox Hsky]; first [ %s | revert Hbox; apply box_point_fl_refute; first [ left; unfold slack; lra "
+           "| right; left; unfold slack; lra | right; right; left; %s | right; right; right; %s ] ]." % (NOSKY, both, both))
     return (st1, pr1), (st2, pr2), neg
+
+
+# ---- pre-screen (ROUTING ONLY): an 80-bit evaluation of what each certificate states.  Items
+# predicted to hold are compiled in shards; items predicted to fail are compiled one by one together
+# with their negation, at most SUSPECT_MAX per kind and role, the others being recorded as failed
+# obligations without compiling them (the violation is reported through the compiled ones).  The
+# prediction never accepts anything: every accepted certificate is checked by coqc.
+LD = np.longdouble
+PI_L = LD("3.14159265358979323846264338327950288")
+SLACK, VSLACK, SINSLACK = LD(1e-9), LD(15) / LD(10) ** 23, LD(4) / LD(10) ** 15
+SUSPECT_MAX = 3
+
+
+def _d2r(x):
+    return LD(x) * PI_L / LD(180)
+
+
+def _vec(ra, dec):
+    a, d = _d2r(ra), _d2r(dec)
+    return np.array([np.cos(a) * np.cos(d), np.sin(a) * np.cos(d), np.sin(d)], dtype=LD)
+
+
+def _sep_l(ra1, dec1, ra2, dec2):
+    h = (np.sin(_d2r(LD(dec2) - LD(dec1)) / 2) ** 2
+         + np.cos(_d2r(dec1)) * np.cos(_d2r(dec2)) * np.sin(_d2r(LD(ra2) - LD(ra1)) / 2) ** 2)
+    h = min(max(h, LD(0)), LD(1))
+    return 2 * np.arcsin(np.sqrt(h)) * LD(180) / PI_L
+
+
+def _model_vec(c, i):
+    ra, dec, rad = LD(c["ra"]), LD(c["dec"]), LD(c["rad"])
+    u, up = LD(c["dev"][0][i]), LD(c["dev"][1][i])
+    r = _d2r(np.sqrt(u) * rad)
+    psi = 2 * PI_L * up
+    if _is_polar(c):                               # ProofsGeo.cap_vec_rot
+        al, de = _d2r(ra), _d2r(dec)
+        a, b, cc = np.sin(r) * np.sin(psi), np.cos(r), -(np.sin(r) * np.cos(psi))
+        m2, m3 = np.cos(de) * b - np.sin(de) * cc, np.sin(de) * b + np.cos(de) * cc
+        return np.array([a * np.sin(al) + m2 * np.cos(al), -a * np.cos(al) + m2 * np.sin(al), m3], dtype=LD)
+    th, ph = _d2r(dec + 90), _d2r(ra)              # ProofsGeo.cap_vec
+    ct2 = np.cos(th) * np.cos(r) + np.sin(th) * np.sin(r) * np.cos(psi)
+    x = np.sin(th) * np.cos(r) - np.cos(th) * np.sin(r) * np.cos(psi)
+    y = np.sin(r) * np.sin(psi)
+    return np.array([x * np.cos(ph) + y * np.sin(ph), x * np.sin(ph) - y * np.cos(ph), -ct2], dtype=LD)
+
+
+def predict(c, i, pt, role):
+    """True when the certificate is expected to be provable"""
+    try:
+        if c["kind"] == "cap":
+            ra2, dec2, r = pt
+            if role == "property":
+                s = _sep_l(c["ra"], c["dec"], ra2, dec2)
+                return bool(s <= LD(c["rad"]) + SLACK and abs(s - LD(r)) <= SLACK
+                            and 0.0 <= ra2 <= 360.0 and -90.0 <= dec2 <= 90.0)
+            d = _model_vec(c, i) - _vec(ra2, dec2)
+            return bool(np.dot(d, d) / 2 <= VSLACK
+                        and abs(np.sqrt(LD(c["dev"][0][i])) * LD(c["rad"]) - LD(r)) <= SLACK)
+        a0, a1, d0, d1 = _box(c)
+        u1, u2 = LD(c["dev"][0][i]), LD(c["dev"][1][i])
+        lo, hi = np.cos(_d2r(LD(90) + LD(d1))), np.cos(_d2r(LD(90) + LD(d0)))
+        v = lo + (hi - lo) * u2
+        mra = LD(a0) + (LD(a1) - LD(a0)) * u1
+        if c["system"] == "xyz":
+            x, y, z = pt
+            q = np.sqrt(1 - v * v)
+            return bool(abs(np.cos(_d2r(mra)) * q - LD(x)) <= SINSLACK and abs(np.sin(_d2r(mra)) * q - LD(y)) <= SINSLACK
+                        and abs(-v - LD(z)) <= SINSLACK)
+        ra, dec = pt
+        sd = np.sin(_d2r(dec))
+        if role == "property":
+            return bool(LD(a0) - SLACK <= LD(ra) <= LD(a1) + SLACK
+                        and (LD(d0) - SLACK <= LD(dec) or np.sin(_d2r(d0)) - SINSLACK <= sd)
+                        and (LD(dec) <= LD(d1) + SLACK or sd <= np.sin(_d2r(d1)) + SINSLACK)
+                        and 0.0 <= ra <= 360.0 and -90.0 <= dec <= 90.0)
+        return bool(abs(mra - LD(ra)) <= SLACK and abs(sd + v) <= SINSLACK)
+    except Exception:  # noqa
+        return True                                 # no prediction: compile it
 
 
 def _nontrivial_geo(c, i):
@@ -263,7 +346,7 @@ def geometry(ctx, replay_case=None):
         cases = [replay_case]
     else:
         cases = [c for c in corpus_cases(ctx.pid, "geometry")] + cap_cases(ctx) + box_cases(ctx)
-    items = []      # (case, point index, point, role, statement, proof, negation)
+    items = []      # [case, point index, point, role, (statement, proof), negation, impl output]
     for c in cases:
         out = run_geo(c)
         fam = c.get("family", c["kind"])
@@ -291,40 +374,61 @@ def geometry(ctx, replay_case=None):
                 continue
             prop, model, neg = (cap_lemmas if c["kind"] == "cap" else box_lemmas)(c, i, pt)
             if prop is not None:
-                items.append((c, i, pt, "property", prop, neg, out))
-            items.append((c, i, pt, "model", model, None, out))
-    res = core.coq_lemmas(ctx.work + "/geo", PRE_R, [it[4] for it in items], shard=10, tag="geo")
+                items.append([c, i, pt, "property", prop, neg, out])
+            items.append([c, i, pt, "model", model, None, out])
+    # routing by the pre-screen
+    good, suspect, skipped, nsus = [], [], [], {}
+    for it in items:
+        if predict(it[0], it[1], it[2], it[3]):
+            good.append(it)
+            continue
+        key = (it[0]["kind"], it[3])
+        nsus[key] = nsus.get(key, 0) + 1
+        (suspect if nsus[key] <= SUSPECT_MAX or replay_case is not None else skipped).append(it)
+    ctx.count("prescreen:predicted-to-hold", len(good))
+    ctx.count("prescreen:predicted-to-fail", len(suspect) + len(skipped))
+    res = core.coq_lemmas(ctx.work + "/geo", PRE_R, [it[4] for it in good], shard=ctx.n(24, 30), tag="geo") if good else []
+    res += core.coq_lemmas(ctx.work + "/sus", PRE_R, [it[4] for it in suspect], shard=1, tag="sus") if suspect else []
     ctx.checker_cmds.append("coqc <generated per-case lemmas: ProofsGeo introduction rules + interval>")
     failed_prop, failed_model = [], []
-    for it, (ok, msg) in zip(items, res):
+    for it, (ok, msg) in zip(good + suspect, res):
         c, i, pt, role = it[0], it[1], it[2], it[3]
         ctx.obligation("cert:%s:%s:%s[%d]" % (c["kind"], role, c.get("family", ""), i), ok, msg)
         ctx.count("certificates:%s:%s" % (c["kind"], role))
         if not ok:
             (failed_prop if role == "property" else failed_model).append((it, msg))
+    for it in skipped:
+        c, i, role = it[0], it[1], it[3]
+        ctx.obligation("cert:%s:%s:%s[%d]" % (c["kind"], role, c.get("family", ""), i), False,
+                       "pre-screen predicts failure; not compiled (reported through the compiled cases of the same kind)")
+        ctx.count("certificates-not-compiled:%s:%s" % (c["kind"], role))
     # a failed property certificate: is the negation provable?
     refuted = {}
     if failed_prop:
-        negs = core.coq_lemmas(ctx.work + "/neg", PRE_R, [it[5] for it, _ in failed_prop], shard=4, tag="neg")
+        negs = core.coq_lemmas(ctx.work + "/neg", PRE_R, [it[5] for it, _ in failed_prop], shard=1, tag="neg")
         for k, (ok, _m) in enumerate(negs):
             refuted[k] = ok
     seen = set()
     for k, (it, msg) in enumerate(failed_prop):
         c, i, pt, out = it[0], it[1], it[2], it[6]
-        what = ("randcap: returned point is not within the radius of the centre, or the returned radius is not its "
-                "separation (1e-9 deg)" if c["kind"] == "cap" else "randsphere: returned point is outside the requested box")
-        key = (what, refuted.get(k, False))
-        if key in seen and len(seen) > 6:
+        what = ("randcap: returned point is not within the radius of the centre, or outside [0,360]x[-90,90], or the "
+                "returned radius is not its separation (1e-9 deg)" if c["kind"] == "cap"
+                else "randsphere: returned point is outside the requested box")
+        key = (what, refuted.get(k, False), c.get("family"))
+        if key in seen or len(seen) >= 6:
             continue
         seen.add(key)
+        nmore = sum(1 for s_ in skipped if s_[0]["kind"] == c["kind"] and s_[3] == "property")
         ctx.violation(what + (" [negation proved in Coq]" if refuted.get(k) else " [certificate could not be established]"),
                       {"kind": "geometry-case", "case": c, "impl_output": out, "point": i, "output_point": pt,
-                       "statement": it[4][0], "negation_proved": bool(refuted.get(k)), "coq": msg[-800:]},
+                       "statement": it[4][0], "negation_proved": bool(refuted.get(k)), "coq": msg[-800:],
+                       "further_cases_predicted_to_fail": nmore},
                       found_input=bool(refuted.get(k)))
     if failed_model and not any(refuted.values()):
         it, msg = failed_model[0]
         ctx.violation("%s: correspondence model<->implementation broken on %d point(s) (certificate %s failed)"
-                      % (it[0]["kind"], len(failed_model), it[4][0].split(" ")[0]),
+                      % (it[0]["kind"], len(failed_model) + sum(1 for s_ in skipped if s_[3] == "model"),
+                         it[4][0].split(" ")[0]),
                       {"kind": "geometry-case", "case": it[0], "impl_output": it[6], "point": it[1], "statement": it[4][0],
                        "no_longer_checks": "correspondence C19.%s (R model within 1e-9 deg of the implementation)" % it[0]["kind"],
                        "coq": msg[-800:]}, found_input=False)
@@ -334,10 +438,42 @@ def geometry(ctx, replay_case=None):
 # discrete requirements on sky outputs (count, exact ranges, reproducibility)
 # ======================================================================================
 
-class SkyDiscrete(Entry):
-    name = "sky_discrete"
+class ParEntry(Entry):
+    """An Entry whose verdict terms are evaluated by coqc in PARALLEL shards at the moment the cases are
+    generated (runner.run_entry puts all terms of an entry into one file = one process).  The runner then
+    receives, for exactly those case objects, the value coqc printed; corpus and replay cases (other
+    objects) go through impl_real/term_real inside the runner as usual."""
+    shard = 12
+
+    def __init__(self):
+        self._cache = {}
 
     def cases(self, ctx, round=0):
+        cs = self.make_cases(ctx, round)
+        outs = [self.impl_real(c) for c in cs]
+        terms = [self.term_real(c, o) for c, o in zip(cs, outs)]
+        try:
+            vals = core.coq_eval(os.path.join(ctx.work, "par_%s_%d" % (self.name, round)), PRE_Q, terms,
+                                 shard=self.shard, tag="p")
+        except core.CoqEvalError:
+            return cs                      # the runner evaluates (and reports) it itself
+        for c, o, v in zip(cs, outs, vals):
+            self._cache[id(c)] = (c, o, "(%s)%%Z" % v.replace("%Z", "").strip("() "))
+        return cs
+
+    def impl(self, c):
+        h = self._cache.get(id(c))
+        return h[1] if h is not None and h[0] is c else self.impl_real(c)
+
+    def term(self, c, out):
+        h = self._cache.get(id(c))
+        return h[2] if h is not None and h[0] is c else self.term_real(c, out)
+
+
+class SkyDiscrete(ParEntry):
+    name = "sky_discrete"
+
+    def make_cases(self, ctx, round=0):
         r = ctx.rng
         cs = []
         for _ in range(ctx.n(40, 400)):
@@ -356,7 +492,7 @@ class SkyDiscrete(Entry):
                            "gen": r.choice(REALS), "seed": r.randrange(2 ** 31), "family": "box"})
         return cs
 
-    def impl(self, c):
+    def impl_real(self, c):
         from esutil import coords
 
         def once():
@@ -374,7 +510,7 @@ class SkyDiscrete(Entry):
         return {"run1": a[1] if a[0] == "ok" else None, "run2": b[1] if b[0] == "ok" else None,
                 "err": None if a[0] == "ok" and b[0] == "ok" else (a[2] if a[0] != "ok" else b[2])}
 
-    def term(self, c, out):
+    def term_real(self, c, out):
         if out["err"] is not None:
             return "2%Z"
         r1, r2 = out["run1"], out["run2"]
@@ -399,10 +535,10 @@ def _poly(a, b, c2):
     return lambda t: a + b * t + c2 * t * t
 
 
-class GeneratorEntry(Entry):
+class GeneratorEntry(ParEntry):
     name = "generator"
 
-    def cases(self, ctx, round=0):
+    def make_cases(self, ctx, round=0):
         r = ctx.rng
         cs = []
 
@@ -478,7 +614,7 @@ class GeneratorEntry(Entry):
         x = np.linspace(c["xrange"][0], c["xrange"][1], c["nx"]) if c["mode"] == "func_range" else np.array(c["x"], dtype="f8")
         return [float(t) for t in x], [float(t) for t in f(x)]
 
-    def impl(self, c):
+    def impl_real(self, c):
         from esutil import random as er
 
         def build(us):
@@ -508,11 +644,11 @@ class GeneratorEntry(Entry):
             return {"us": us, "vals": vals, "node_targets": [float(g.xvals[k]) for k in c["nodes"]]}
         return core.guarded(f)
 
-    def term(self, c, out):
+    def term_real(self, c, out):
         x, p = self._table(c)
         if out[0] == "ok":
-            return "v_gen %s %s %s (Ok %s)" % (cqlist(p), cqlist(x), cqlist(out[1]["us"]), cqlist(out[1]["vals"]))
-        return "v_gen %s %s %s (Err %s)" % (cqlist(p), cqlist(x), cqlist(c["us"] or [0.5]), out[1])
+            return "v_gen_fast %s %s %s (Ok %s)" % (cqlist(p), cqlist(x), cqlist(out[1]["us"]), cqlist(out[1]["vals"]))
+        return "v_gen_fast %s %s %s (Err %s)" % (cqlist(p), cqlist(x), cqlist(c["us"] or [0.5]), out[1])
 
     def nontrivial(self, c, out):
         return out[0] == "ok" and len(c["x"]) >= 3 and len(c["us"]) >= 2
@@ -526,10 +662,10 @@ class GeneratorEntry(Entry):
 # Cholesky sampler
 # ======================================================================================
 
-class CholeskyEntry(Entry):
+class CholeskyEntry(ParEntry):
     name = "cholesky"
 
-    def cases(self, ctx, round=0):
+    def make_cases(self, ctx, round=0):
         r = ctx.rng
         cs = []
         for _ in range(ctx.n(60, 700)):
@@ -548,7 +684,7 @@ class CholeskyEntry(Entry):
                        "family": "%dx%d/%s" % (npar, npar, api)})
         return cs
 
-    def impl(self, c):
+    def impl_real(self, c):
         from esutil import random as er
         drew = []
 
@@ -571,7 +707,7 @@ class CholeskyEntry(Entry):
             return {"M": [[float(v) for v in row] for row in M], "samples": [[float(v) for v in row] for row in s], "drew": drew}
         return core.guarded(f)
 
-    def term(self, c, out):
+    def term_real(self, c, out):
         if out[0] != "ok" or out[1]["drew"] != [len(c["cov"]) * c["n"]]:
             return "2%Z"                    # raised on an SPD covariance, or did not draw npar*n deviates in one call
         o = out[1]
@@ -590,10 +726,10 @@ class CholeskyEntry(Entry):
 # random_indices
 # ======================================================================================
 
-class RandomIndices(Entry):
+class RandomIndices(ParEntry):
     name = "random_indices"
 
-    def cases(self, ctx, round=0):
+    def make_cases(self, ctx, round=0):
         r = ctx.rng
         cs = []
         if round == 0:
@@ -613,7 +749,7 @@ class RandomIndices(Entry):
                        "seed": r.randrange(2 ** 31), "family": "random"})
         return cs
 
-    def impl(self, c):
+    def impl_real(self, c):
         from esutil import random as er
 
         def once():
@@ -624,7 +760,7 @@ class RandomIndices(Entry):
             return [int(v) for v in np.asarray(o).ravel()]
         return [core.guarded(once), core.guarded(once)]
 
-    def term(self, c, out):
+    def term_real(self, c, out):
         f = lambda o: "(Ok %s)" % clist(o[1]) if o[0] == "ok" else "(Err %s)" % o[1]   # noqa
         return "v_ri %s %s %s %s %s" % (cz(c["imax"]), cz(c["nrand"]), cbool(c["unique"]), f(out[0]), f(out[1]))
 
